@@ -381,6 +381,452 @@ DMZ ↦ DMZ outbound; frames on any other port are dropped. -/
 theorem C06_firewall_first_list (z : Zone) : portEntry (zonePort z) = some (zoneEntry z) := by
   cases z <;> rfl
 
+/-! ## 2. The cut theorem for PrimAITE's element kinds -/
+
+section cut
+variable {N : Type} [DecidableEq N]
+
+/-- frame class: "arrived over a wire from an attacker-side node" (no restriction on its contents) -/
+def SideFacing (sys : Sys N Nat Frame (Node W)) (side : N → Bool) (n : N) (p : Nat) : Prop :=
+  ∃ n' q, side n' = true ∧ sys.wire n' q = some (n, p)
+
+def FromSide (sys : Sys N Nat Frame (Node W)) (side : N → Bool) (n : N) (p : Nat) (_ : Frame) : Prop :=
+  SideFacing sys side n p
+
+/-- Why an attacker-side node lets nothing through to the protected side. -/
+inductive Role (W : Type)
+  /-- every wire of the node stays on the attacker side (A itself, its switches, routers, …): the node may do anything -/
+  | interior
+  /-- an element (of any kind) whose every interface towards the protected side is disabled — this covers a
+      disabled router / switch / firewall port, a disabled NIC, and a powered-off device (C12: not ON ⇒ interfaces
+      disabled) -/
+  | ifaceDown (soft : Soft W)
+  /-- a router that is not ON -/
+  | routerOff (soft : Soft W)
+  /-- a router whose list denies everything -/
+  | routerDeny (soft : Soft W)
+  /-- a firewall whose first-stage list denies everything on every port facing the attacker side -/
+  | fwDeny (soft : Soft W)
+
+/-- every port of `n` whose wire leaves the attacker side is disabled -/
+def BoundaryDown (sys : Sys N Nat Frame (Node W)) (side : N → Bool) (n : N) (s : Node W) : Prop :=
+  ∀ q m r, sys.wire n q = some (m, r) → side m = false → portEnabled s q = false
+
+/-- the invariant each role maintains -/
+def inv (sys : Sys N Nat Frame (Node W)) (side : N → Bool) (role : N → Role W) (n : N) (s : Node W) : Prop :=
+  match role n with
+  | .interior => True
+  | .ifaceDown _ => BoundaryDown sys side n s
+  | .routerOff _ => s.kind = .router ∧ s.on = false
+  | .routerDeny _ => s.kind = .router ∧ DeniesAll (s.acls .router)
+  | .fwDeny _ => s.kind = .firewall ∧
+      ∀ p e, SideFacing sys side n p → portEntry p = some e → DeniesAll (s.acls (entryAcl e))
+
+/-- The software of an element never writes a state violating `P` (e.g. never re-enables a boundary interface
+while processing frames). -/
+structure SoftKeeps (soft : Soft W) (P : Node W → Prop) : Prop where
+  session : ∀ s p f, P s → Pres P (soft.session s p f)
+  process : ∀ s p f, P s → Pres P (soft.process s p f)
+  dmzLookup : ∀ s p f, P s → Pres P (soft.dmzLookup s p f)
+  switchFwd : ∀ s p f, P s → Pres P (soft.switchFwd s p f)
+
+/-- what must be checked of each attacker-side node, by role -/
+def RoleOK (sys : Sys N Nat Frame (Node W)) (side : N → Bool) (role : N → Role W) (n : N) : Prop :=
+  match role n with
+  | .interior => ∀ q m r, sys.wire n q = some (m, r) → side m = true
+  | .ifaceDown soft => sys.handler n = nodeRx soft ∧ SoftKeeps soft (BoundaryDown sys side n)
+  | .routerOff soft => sys.handler n = nodeRx soft
+  | .routerDeny soft => sys.handler n = nodeRx soft ∧
+      -- the only frames that skip the list are ARP packets; what the router's ARP handling emits stays on the attacker side
+      ∀ s p f, inv sys side role n s → SideFacing sys side n p → subjectToAcl f = some false →
+        SafeAct sys side (FromSide sys side) (inv sys side role) n (guardSends portEnabled (permitted soft s p f))
+  | .fwDeny soft => sys.handler n = nodeRx soft
+
+omit [DecidableEq N] in
+theorem fromSide_of_wire (sys : Sys N Nat Frame (Node W)) (side : N → Bool) (n : N) (hn : side n = true)
+    (q : Nat) (m : N) (r : Nat) (g : Frame) (h : sys.wire n q = some (m, r)) : FromSide sys side m r g :=
+  ⟨n, q, hn, h⟩
+
+/-- predicates that only read the interfaces survive counter bumps and software-state updates -/
+theorem nodeLayer_pres (soft : Soft W) (P : Node W → Prop) (hsw : ∀ s x, P s → P { s with sw := x })
+    (hacl : ∀ s a x, P s → P (s.setAcl a x)) (hk : SoftKeeps soft P) (s : Node W) (p : Nat) (f : Frame) (hs : P s) :
+    Pres P (nodeLayer soft s p f) := by
+  have hfinal : ∀ e s, P s → Pres P (fwFinal soft e s p f) := by
+    intro e s hs
+    simp only [fwFinal]
+    split
+    · exact Pres.done (hacl _ _ _ hs)
+    · exact hk.process _ _ _ (hacl _ _ _ hs)
+  have hperm : ∀ s, P s → Pres P (permitted soft s p f) := by
+    intro s hs
+    simp only [permitted]
+    split
+    · exact hk.session _ _ _ (hsw _ _ hs)
+    · exact hk.process _ _ _ (hsw _ _ hs)
+  unfold nodeLayer
+  cases hkind : s.kind with
+  | host =>
+    simp only [hostRx]
+    have h0 : P { s with sw := soft.capture s p f } := hsw _ _ hs
+    split
+    · split
+      · exact hk.session _ _ _ (hsw _ _ hs)
+      · exact Pres.done (hsw _ _ hs)
+    · split
+      · exact hk.session _ _ _ h0
+      · exact Pres.done h0
+  | switch => exact hk.switchFwd _ _ _ hs
+  | router =>
+    simp only [routerRx, routerRxWith]
+    split
+    · exact Pres.done hs
+    · split
+      · exact Pres.done hs
+      · exact hperm _ hs
+      · split
+        · exact Pres.done (hacl _ _ _ hs)
+        · exact hperm _ (hacl _ _ _ hs)
+  | firewall =>
+    simp only [fwRx]
+    split
+    · rename_i e _
+      simp only [fwFirst]
+      split
+      · exact Pres.done (hacl _ _ _ hs)
+      · have h2 := hsw _ (soft.learn (s.setAcl (entryAcl e) (isPermitted (s.acls (entryAcl e)) f.pkt).2.2) p f) (hacl _ (entryAcl e) (isPermitted (s.acls (entryAcl e)) f.pkt).2.2 hs)
+        split
+        · exact hk.session _ _ _ h2
+        · cases e with
+          | extIn => simp only [fwNext]; split <;> exact hfinal _ _ h2
+          | intOut => simp only [fwNext]; split <;> exact hfinal _ _ h2
+          | dmzOut =>
+            simp only [fwNext]
+            refine pres_bind P _ _ (hk.dmzLookup _ _ _ h2) ?_
+            intro s3 hs3
+            split
+            · split
+              · exact hfinal _ _ hs3
+              · split
+                · exact hfinal _ _ hs3
+                · exact Pres.done hs3
+            · exact Pres.done hs3
+          | extOut => exact Pres.done h2
+          | intIn => exact Pres.done h2
+          | dmzIn => exact Pres.done h2
+    · exact Pres.done hs
+
+theorem boundaryDown_sw (sys : Sys N Nat Frame (Node W)) (side : N → Bool) (n : N) (s : Node W) (x : W)
+    (h : BoundaryDown sys side n s) : BoundaryDown sys side n { s with sw := x } := h
+
+theorem boundaryDown_acl (sys : Sys N Nat Frame (Node W)) (side : N → Bool) (n : N) (s : Node W) (a : AclId) (x : Acl)
+    (h : BoundaryDown sys side n s) : BoundaryDown sys side n (s.setAcl a x) := h
+
+/-- **Cut theorem for PrimAITE topologies.**  Let `side` mark the attacker side together with the blocking
+elements, and give every such node a role.  If every node meets its role's condition, the system is a cut:
+every frame that arrives over a wire from the attacker side is processed without anything reaching the
+protected side, and the role invariants (interfaces still disabled, router still off, lists still denying —
+hit counters change, verdicts do not) are re-established after every step. -/
+theorem C06_cut (sys : Sys N Nat Frame (Node W)) (side : N → Bool) (role : N → Role W)
+    (hroles : ∀ n, side n = true → RoleOK sys side role n) :
+    IsCut sys side (FromSide sys side) (inv sys side role) := by
+  constructor
+  intro n s p f hn hI hK
+  have hKw : ∀ q m r g, sys.wire n q = some (m, r) → FromSide sys side m r g :=
+    fun q m r g h => fromSide_of_wire sys side n hn q m r g h
+  have hok := hroles n hn
+  unfold RoleOK at hok
+  cases hr : role n with
+  | interior =>
+    simp only [hr] at hok
+    exact safe_of_interior sys side _ _ n hKw (fun s => by simp [inv, hr]) hok _
+  | ifaceDown soft =>
+    simp only [hr] at hok
+    obtain ⟨hh, hkeeps⟩ := hok
+    have hI' : BoundaryDown sys side n s := by simpa [inv, hr] using hI
+    have hinv : ∀ s', inv sys side role n s' ↔ BoundaryDown sys side n s' := by intro s'; simp [inv, hr]
+    rw [hh]
+    unfold nodeRx
+    split
+    · exact SafeAct.done hI
+    · split
+      · rename_i f' _
+        apply safe_of_guard sys side _ _ n portEnabled hKw
+        · intro s' q m r hs' hen hw
+          cases hsm : side m with
+          | true => rfl
+          | false =>
+            have := (hinv s').mp hs' q m r hw hsm
+            rw [this] at hen; cases hen
+        · have hp := nodeLayer_pres soft (BoundaryDown sys side n) (boundaryDown_sw sys side n)
+            (boundaryDown_acl sys side n) hkeeps s p f' hI'
+          have hfun : inv sys side role n = BoundaryDown sys side n := by funext s'; exact propext (hinv s')
+          rw [hfun]; exact hp
+      · exact SafeAct.done hI
+  | routerOff soft =>
+    simp only [hr] at hok
+    have hI' : s.kind = .router ∧ s.on = false := by simpa [inv, hr] using hI
+    rw [hok, C06_router_off_inert soft s p f hI'.1 hI'.2]
+    exact SafeAct.done hI
+  | routerDeny soft =>
+    simp only [hr] at hok
+    obtain ⟨hh, hex⟩ := hok
+    have hI' : s.kind = .router ∧ DeniesAll (s.acls .router) := by simpa [inv, hr] using hI
+    rw [hh]
+    unfold nodeRx
+    split
+    · exact SafeAct.done hI
+    · split
+      · rename_i f' _
+        have hnl : nodeLayer soft s p f' = routerRxWith subjectToAcl soft s p f' := by
+          simp [nodeLayer, hI'.1, routerRx]
+        rw [hnl]
+        simp only [routerRxWith]
+        split
+        · exact SafeAct.done hI
+        · split
+          · exact SafeAct.done hI
+          · rename_i hsub
+            exact hex s p f' hI hK hsub
+          · have hd : (isPermitted (s.acls .router) f'.pkt).1 = false := hI'.2 f'.pkt
+            simp only [hd, Bool.not_false, if_true, guardSends]
+            apply SafeAct.done
+            simp only [inv, hr]
+            refine ⟨hI'.1, ?_⟩
+            simp only [Node.setAcl, if_true]
+            exact deniesAll_stable _ _ hI'.2
+      · exact SafeAct.done hI
+  | fwDeny soft =>
+    simp only [hr] at hok
+    have hI' : s.kind = .firewall ∧
+        ∀ p e, SideFacing sys side n p → portEntry p = some e → DeniesAll (s.acls (entryAcl e)) := by
+      simpa [inv, hr] using hI
+    rw [hok]
+    unfold nodeRx
+    split
+    · exact SafeAct.done hI
+    · split
+      · rename_i f' _
+        have hnl : nodeLayer soft s p f' = fwRx soft s p f' := by simp [nodeLayer, hI'.1]
+        rw [hnl]
+        simp only [fwRx]
+        cases hpe : portEntry p with
+        | none => exact SafeAct.done hI
+        | some e =>
+          have hall := hI'.2 p e hK hpe
+          have hd : (isPermitted (s.acls (entryAcl e)) f'.pkt).1 = false := hall f'.pkt
+          simp only [fwFirst, hd, Bool.not_false, if_true, guardSends]
+          apply SafeAct.done
+          simp only [inv, hr]
+          refine ⟨hI'.1, ?_⟩
+          intro p' e' hfs hpe'
+          by_cases hee : entryAcl e' = entryAcl e
+          · simp only [Node.setAcl, hee, if_true]
+            exact deniesAll_stable _ _ hall
+          · simp only [Node.setAcl, hee, if_false]
+            exact hI'.2 p' e' hfs hpe'
+      · exact SafeAct.done hI
+
+/-- **C06, headline.**  In a cut, any sequence of admissible local operations on the attacker side — each
+running to completion with all the traffic it triggers, whatever the ARP caches, MAC tables, sessions and
+software states are (they are part of the universally quantified initial state) — leaves the state of every
+protected node exactly as it was. -/
+theorem C06_blocked_unchanged (sys : Sys N Nat Frame (Node W)) (side : N → Bool) (role : N → Role W)
+    (hroles : ∀ n, side n = true → RoleOK sys side role n)
+    (ops : List (Nat × Op N Nat Frame (Node W)))
+    (hops : ∀ o ∈ ops, SafeOp sys side (FromSide sys side) (inv sys side role) o.2)
+    (σ : St N (Node W)) (hσ : ∀ n, side n = true → inv sys side role n (σ n)) :
+    ∀ t, side t = false → runOps sys σ ops t = σ t :=
+  (runOps_good sys side _ _ (C06_cut sys side role hroles) ops σ hops hσ).2
+
+/-- Operations on interior nodes (host A and everything on its side of the block) are admissible whatever
+they do: any action, application or attack. -/
+theorem C06_safeOp_interior (sys : Sys N Nat Frame (Node W)) (side : N → Bool) (role : N → Role W)
+    (o : Op N Nat Frame (Node W)) (hn : side o.node = true) (hr : role o.node = .interior)
+    (hw : ∀ q m r, sys.wire o.node q = some (m, r) → side m = true) :
+    SafeOp sys side (FromSide sys side) (inv sys side role) o :=
+  ⟨hn, fun _ _ => safe_of_interior sys side _ _ o.node
+    (fun q m r g h => fromSide_of_wire sys side o.node hn q m r g h) (fun s => by simp [inv, hr]) hw _⟩
+
+/-- Operations on an element whose boundary interfaces are disabled (e.g. A itself with its NIC disabled) are
+admissible when they go through the session manager / interface-send layer and do not re-enable the
+interface. -/
+theorem C06_safeOp_ifaceDown (sys : Sys N Nat Frame (Node W)) (side : N → Bool) (role : N → Role W) (soft : Soft W)
+    (n : N) (a : Node W → Script W) (hn : side n = true) (hr : role n = .ifaceDown soft)
+    (ha : ∀ s, BoundaryDown sys side n s → Pres (BoundaryDown sys side n) (stampSends ownSrc (a s))) :
+    SafeOp sys side (FromSide sys side) (inv sys side role) { node := n, script := fun s => localOp (a s) } := by
+  refine ⟨hn, ?_⟩
+  intro s hs
+  have hinv : ∀ s', inv sys side role n s' ↔ BoundaryDown sys side n s' := by intro s'; simp [inv, hr]
+  have hfun : inv sys side role n = BoundaryDown sys side n := by funext s'; exact propext (hinv s')
+  show SafeAct sys side _ _ n (guardSends portEnabled (stampSends ownSrc (a s)))
+  apply safe_of_guard sys side _ _ n portEnabled (fun q m r g h => fromSide_of_wire sys side n hn q m r g h)
+  · intro s' q m r hs' hen hw
+    cases hsm : side m with
+    | true => rfl
+    | false =>
+      have := (hinv s').mp hs' q m r hw hsm
+      rw [this] at hen; cases hen
+  · rw [hfun]; exact ha s ((hinv s).mp hs)
+
+/-! ### non-vacuity: A — X — B with each kind of block at X -/
+
+/-- node 0 = A, node 1 = the blocking element X, node 2 = B; A—X on X's port 0, X—B on X's port 1 -/
+def exWire : Fin 3 → Nat → Option (Fin 3 × Nat)
+  | 0, 0 => some (1, 0)
+  | 1, 0 => some (0, 0)
+  | 1, 1 => some (2, 0)
+  | 2, 0 => some (1, 1)
+  | _, _ => none
+
+def exSide : Fin 3 → Bool
+  | 2 => false
+  | _ => true
+
+/-- A and B run arbitrary handlers `hA`, `hB`; X is a PrimAITE element with echoing software -/
+def exSys (hA hB : Node Unit → Nat → Frame → Script Unit) : Sys (Fin 3) Nat Frame (Node Unit) :=
+  { handler := fun n => if n = 0 then hA else if n = 1 then nodeRx exEchoSoft else hB, wire := exWire }
+
+def exRole (r : Role Unit) : Fin 3 → Role Unit := fun n => if n = 1 then r else .interior
+
+theorem exSideFacing (hA hB) (p : Nat) (h : SideFacing (exSys hA hB) exSide 1 p) : p = 0 := by
+  obtain ⟨n', q, hs, hw⟩ := h
+  have : ∀ (n' : Fin 3) (q : Nat), exSide n' = true → exWire n' q = some (1, p) → p = 0 := by
+    intro n' q
+    match n', q with
+    | 0, 0 => intro _ h; simp [exWire] at h; exact h.symm
+    | 0, _ + 1 => intro _ h; simp [exWire] at h
+    | 1, 0 => intro _ h; simp [exWire] at h
+    | 1, 1 => intro _ h; simp [exWire] at h
+    | 1, _ + 2 => intro _ h; simp [exWire] at h
+    | 2, _ => intro h; simp [exSide] at h
+  exact this n' q hs hw
+
+theorem exInterior0 (q : Nat) (m : Fin 3) (r : Nat) (h : exWire 0 q = some (m, r)) : exSide m = true := by
+  match q with
+  | 0 => simp [exWire] at h; rw [← h.1]; rfl
+  | _ + 1 => simp [exWire] at h
+
+/-- X = firewall, A on its external port, external-inbound list denies everything: whatever A and its software do
+(and whatever the firewall's own software would do with a permitted frame), B's state never changes. -/
+example (hA hB) (ops : List (Nat × Op (Fin 3) Nat Frame (Node Unit))) (hops : ∀ o ∈ ops, o.2.node = 0)
+    (σ : St (Fin 3) (Node Unit)) (hk : (σ 1).kind = .firewall) (hd : DeniesAll ((σ 1).acls .extIn)) :
+    runOps (exSys hA hB) σ ops 2 = σ 2 := by
+  apply C06_blocked_unchanged (exSys hA hB) exSide (exRole (.fwDeny exEchoSoft))
+  · intro n hn
+    match n with
+    | 0 => exact exInterior0
+    | 1 => simp [RoleOK, exRole, exSys]
+    | 2 => simp [exSide] at hn
+  · intro o ho
+    have h0 := hops o ho
+    exact C06_safeOp_interior _ _ _ o.2 (by rw [h0]; rfl) (by rw [h0]; rfl) (by rw [h0]; exact exInterior0)
+  · intro n hn
+    match n with
+    | 0 => simp [inv, exRole]
+    | 1 =>
+      simp only [inv, exRole, if_true]
+      refine ⟨hk, ?_⟩
+      intro p e hp hpe
+      have := exSideFacing hA hB p hp
+      subst this
+      simp [portEntry, extPort] at hpe
+      subst hpe
+      exact hd
+    | 2 => simp [exSide] at hn
+  · rfl
+
+/-- X = router that is OFF (its interfaces may even still be enabled). -/
+example (hA hB) (ops : List (Nat × Op (Fin 3) Nat Frame (Node Unit))) (hops : ∀ o ∈ ops, o.2.node = 0)
+    (σ : St (Fin 3) (Node Unit)) (hk : (σ 1).kind = .router) (hoff : (σ 1).on = false) :
+    runOps (exSys hA hB) σ ops 2 = σ 2 := by
+  apply C06_blocked_unchanged (exSys hA hB) exSide (exRole (.routerOff exEchoSoft))
+  · intro n hn
+    match n with
+    | 0 => exact exInterior0
+    | 1 => simp [RoleOK, exRole, exSys]
+    | 2 => simp [exSide] at hn
+  · intro o ho
+    have h0 := hops o ho
+    exact C06_safeOp_interior _ _ _ o.2 (by rw [h0]; rfl) (by rw [h0]; rfl) (by rw [h0]; exact exInterior0)
+  · intro n hn
+    match n with
+    | 0 => simp [inv, exRole]
+    | 1 => simp only [inv, exRole, if_true]; exact ⟨hk, hoff⟩
+    | 2 => simp [exSide] at hn
+  · rfl
+
+/-- X = router whose list denies everything; its software answers ARP on the port the request came from. -/
+example (hA hB) (ops : List (Nat × Op (Fin 3) Nat Frame (Node Unit))) (hops : ∀ o ∈ ops, o.2.node = 0)
+    (σ : St (Fin 3) (Node Unit)) (hk : (σ 1).kind = .router) (hd : DeniesAll ((σ 1).acls .router)) :
+    runOps (exSys hA hB) σ ops 2 = σ 2 := by
+  apply C06_blocked_unchanged (exSys hA hB) exSide (exRole (.routerDeny exEchoSoft))
+  · intro n hn
+    match n with
+    | 0 => exact exInterior0
+    | 1 =>
+      simp only [RoleOK, exRole, if_true]
+      refine ⟨by simp [exSys], ?_⟩
+      intro s p f hs hp _
+      have := exSideFacing hA hB p hp
+      subst this
+      have hs' : s.kind = .router ∧ DeniesAll (s.acls .router) := by simpa [inv, exRole] using hs
+      simp only [permitted, exEchoSoft, if_true, guardSends]
+      split
+      · refine SafeAct.send (by simpa [inv, exRole] using hs') ?_ (fun s' hs' => SafeAct.done hs')
+        intro m r hw
+        simp [exSys, exWire] at hw
+        obtain ⟨rfl, rfl⟩ := hw
+        exact ⟨rfl, ⟨1, 0, rfl, rfl⟩⟩
+      · exact SafeAct.done (by simpa [inv, exRole] using hs')
+    | 2 => simp [exSide] at hn
+  · intro o ho
+    have h0 := hops o ho
+    exact C06_safeOp_interior _ _ _ o.2 (by rw [h0]; rfl) (by rw [h0]; rfl) (by rw [h0]; exact exInterior0)
+  · intro n hn
+    match n with
+    | 0 => simp [inv, exRole]
+    | 1 => simp only [inv, exRole, if_true]; exact ⟨hk, hd⟩
+    | 2 => simp [exSide] at hn
+  · rfl
+
+/-- X = any element (host, switch, router, firewall) whose port towards B is disabled and whose software never
+re-enables it; the link X—B may as well be missing. -/
+example (hA hB) (ops : List (Nat × Op (Fin 3) Nat Frame (Node Unit))) (hops : ∀ o ∈ ops, o.2.node = 0)
+    (σ : St (Fin 3) (Node Unit)) (hd : portEnabled (σ 1) 1 = false) :
+    runOps (exSys hA hB) σ ops 2 = σ 2 := by
+  have hbd : ∀ s : Node Unit, BoundaryDown (exSys hA hB) exSide 1 s ↔ portEnabled s 1 = false := by
+    intro s
+    constructor
+    · intro h; exact h 1 2 0 rfl rfl
+    · intro h q m r hw hm
+      match q with
+      | 0 => simp [exSys, exWire] at hw; rw [← hw.1] at hm; simp [exSide] at hm
+      | 1 => exact h
+      | _ + 2 => simp [exSys, exWire] at hw
+  apply C06_blocked_unchanged (exSys hA hB) exSide (exRole (.ifaceDown exEchoSoft))
+  · intro n hn
+    match n with
+    | 0 => exact exInterior0
+    | 1 =>
+      simp only [RoleOK, exRole, if_true]
+      refine ⟨by simp [exSys], ?_⟩
+      have hecho : ∀ (s : Node Unit) (p : Nat) (f : Frame), BoundaryDown (exSys hA hB) exSide 1 s →
+          Pres (BoundaryDown (exSys hA hB) exSide 1) (.send s p f (fun s' => .done s') : Script Unit) :=
+        fun s p f hs => Pres.send hs (fun s' hs' => Pres.done hs')
+      exact ⟨hecho, hecho, fun s _ _ hs => Pres.done hs, hecho⟩
+    | 2 => simp [exSide] at hn
+  · intro o ho
+    have h0 := hops o ho
+    exact C06_safeOp_interior _ _ _ o.2 (by rw [h0]; rfl) (by rw [h0]; rfl) (by rw [h0]; exact exInterior0)
+  · intro n hn
+    match n with
+    | 0 => simp [inv, exRole]
+    | 1 => simp only [inv, exRole, if_true]; exact (hbd _).mpr hd
+    | 2 => simp [exSide] at hn
+  · rfl
+
+end cut
+
 /-! ### ties to the source (Gen/Filter.lean is regenerated from firewall.py, router.py, switch.py, host_node.py,
 base.py, session_manager.py on every run) -/
 
